@@ -24,6 +24,7 @@ EXPLANATION = (
 ASSUMPTIONS = [
     'MILP back end returns an optimal integral point within bounds of the problem it is handed (CBC itself is outside the claim)',
     'recording shim implements the PuLP surface used by the repository (validated against real PuLP by C02 translation validation)',
+    'a sample of the QF obligations is re-decided by cvc5 1.0.3 from the SMT-LIB2 text; a disagreement is a harness error',
     'quotas/targets are arbitrary integers >= 0 (no upper bound); shape (who ranks whom, ties, project->lecturer) is enumerated',
     'read-back of the matching from variable values is covered by C11',
 ]
@@ -63,6 +64,9 @@ def tasks(tier, seed):
             for s in seqs:
                 out.append({'prop': ID, 'shape': lpchecks.shape_data(I), 'flags': flags,
                             'seq': s, 'forms': ['valid'], 'wf': False})
+    # a sample of the quantifier-free obligations is re-decided by cvc5 (disagreement = harness error)
+    for t in out[::max(1, len(out) // (40 if tier == 'quick' else 200))]:
+        t['cvc5'] = True
     return out
 
 
